@@ -3,7 +3,7 @@
 (* (with the heartbeat-time object 0x1017 and the NMT state as payload), node guarding.           *)
 (* State: for every producer either "off" or the <<can id, data, period (us), remote>> it sends;  *)
 (* the implementation's live cyclic-task set must be exactly one task per running producer.       *)
-EXTENDS Naturals, Sequences, FiniteSets, TLC
+EXTENDS Integers, Sequences, FiniteSets, TLC
 
 Off == <<>>
 \* (ext: the cyclic frame uses the extended format exactly for ids above 0x7FF, like every frame sent)
@@ -12,14 +12,18 @@ Task(id, d, period, rtr) == [id |-> id, d |-> d, period_us |-> period, rtr |-> r
 \* pr = [sync, syncPeriod, pdo, pdoPeriod, pdoData, pdoId, hb, hbState, od1017, ng]
 \*   sync / pdo / hb / ng : Off or a task record;  syncPeriod / pdoPeriod: remembered period (0 = none)
 PInit(pdoId, nid) == [sync |-> Off, syncPeriod |-> 0, pdo |-> Off, pdoPeriod |-> 0, pdoData |-> <<>>,
-                      pdoId |-> pdoId, hb |-> Off, hbState |-> 0, od1017 |-> 0, ng |-> Off, nid |-> nid]
+                      pdoId |-> pdoId, hb |-> Off, hbState |-> 0, od1017 |-> 0, ng |-> Off, nid |-> nid,
+                      syncId |-> 128, lastTs |-> -1]     \* syncId: the SYNC COB-ID attribute; lastTs: time stamp (half seconds) of the last frame the PDO map took in
 
 \* start(period): period = 0 means "not given"
 SyncStart(pr, period) ==
     LET p == IF period > 0 THEN period ELSE pr.syncPeriod IN
       IF p = 0 THEN [ok |-> FALSE, pr |-> [pr EXCEPT !.syncPeriod = p]]
-      ELSE [ok |-> TRUE, pr |-> [pr EXCEPT !.syncPeriod = p, !.sync = Task(128, <<>>, p, FALSE)]]
+      ELSE [ok |-> TRUE, pr |-> [pr EXCEPT !.syncPeriod = p, !.sync = Task(pr.syncId, <<>>, p, FALSE)]]
 SyncStop(pr) == [pr EXCEPT !.sync = Off]
+
+\* the COB-ID attribute of the SYNC producer changes; a running task keeps its frame until the next (re)start
+SyncSetCob(pr, id) == [pr EXCEPT !.syncId = id]
 
 PdoStart(pr, period) ==
     LET p == IF period > 0 THEN period ELSE pr.pdoPeriod IN
@@ -30,6 +34,14 @@ PdoStop(pr) == [pr EXCEPT !.pdo = Off]
 PdoSetCob(pr, id) == [pr EXCEPT !.pdoId = id]
 PdoSetData(pr, d) == [pr EXCEPT !.pdoData = d,
                                !.pdo = IF pr.pdo = Off THEN Off ELSE [pr.pdo EXCEPT !.d = d]]
+
+\* a frame with the map's own COB-ID reaches the network (echo of the own transmission, a second
+\* transmitter): a map that is transmitting ignores it altogether; otherwise it is a reception (data,
+\* and from the second one on the measured period, which a later start() without argument would use)
+PdoEcho(pr, d, ts) ==
+    IF pr.pdo # Off THEN pr
+    ELSE [pr EXCEPT !.pdoData = d, !.lastTs = ts,
+                    !.pdoPeriod = IF pr.lastTs >= 0 THEN (ts - pr.lastTs) * 500000 ELSE pr.pdoPeriod]
 
 HbTask(pr, ms, state) == Task(1792 + pr.nid, <<state>>, ms * 1000, FALSE)
 HbStart(pr, ms) == [pr EXCEPT !.hb = IF ms > 0 THEN HbTask(pr, ms, pr.hbState) ELSE Off]
